@@ -1509,3 +1509,87 @@ pub fn unit_index(rng: &mut Rng, be: bool, max_contrib: u32) -> (Vec<u8>, Vec<u6
     }
     (a.v, present)
 }
+
+/// A pool of FDEs designed for the reuse engine: CIEs with 0 / 1 / many initial rules,
+/// a CIE whose initial instructions fail, remember/restore nests, state-stack underflow,
+/// many registers (rule-count overflow on small storages), invalid opcodes mid-FDE.
+/// Absolute pointers, no augmentation, address size 8, so every FDE parses.
+pub fn cfi_pool(rng: &mut Rng, be: bool) -> Vec<u8> {
+    let mut a = Asm::new(be);
+    let cie_kinds = 6;
+    let mut pc = TEXT_ADDR;
+    for ck in 0..cie_kinds {
+        let cie_off = a.len();
+        let tok = a.begin_len(false);
+        a.u32(0).u8(1).cstr(b"");
+        a.uleb(*rng.pick(&[1u64, 1, 2, 4])).sleb(*rng.pick(&[-8i64, -4, 1])).u8(16);
+        match ck {
+            0 => {}
+            1 => {
+                a.u8(0x0c).uleb(7).uleb(8); // def_cfa, no register rule
+            }
+            2 => {
+                a.u8(0x0c).uleb(7).uleb(8).u8(0x80 | 16).uleb(1); // one rule
+            }
+            3 => {
+                a.u8(0x0c).uleb(7).uleb(8);
+                for r in 0..(2 + rng.below(4)) {
+                    a.u8(0x80 | (r as u8 + 3)).uleb(r + 1); // many rules
+                }
+            }
+            4 => {
+                a.u8(0x0c).uleb(7).uleb(8).u8(0xc0 | 3); // restore inside a CIE: invalid context
+            }
+            _ => {
+                a.u8(0x0c).uleb(7).uleb(8).u8(0x0a).u8(0x80 | 6).uleb(2); // remember_state left open
+            }
+        }
+        a.align(8);
+        a.end_len(tok, 0);
+        for fk in 0..2 + rng.usize(2) {
+            let tok = a.begin_len(false);
+            let ptr_field = a.len();
+            a.u32((ptr_field - cie_off) as u32);
+            let len = 0x40 + rng.below(0x40);
+            a.u64(pc).u64(len);
+            pc += len + 0x10;
+            let kind = (ck * 3 + fk + rng.usize(7)) % 7;
+            match kind {
+                0 => {
+                    a.u8(0x41).u8(0x0e).uleb(16).u8(0x42).u8(0x80 | 6).uleb(2);
+                }
+                1 => {
+                    // remember/restore nest
+                    let d = 1 + rng.usize(5);
+                    for i in 0..d {
+                        a.u8(0x0a).u8(0x41).u8(0x80 | (i as u8 + 1)).uleb(i as u64 + 1);
+                    }
+                    for _ in 0..d {
+                        a.u8(0x0b).u8(0x41);
+                    }
+                }
+                2 => {
+                    a.u8(0x41).u8(0x0b).u8(0x41).u8(0x0e).uleb(8); // restore_state on empty stack
+                }
+                3 => {
+                    for r in 0..(1 + rng.below(7)) {
+                        a.u8(0x80 | (20 + r as u8)).uleb(r + 1).u8(0x41);
+                    }
+                }
+                4 => {
+                    a.u8(0x41).u8(0x80 | 3).uleb(1).u8(0x3f).u8(0x41).u8(0x0e).uleb(8); // invalid opcode mid-FDE
+                }
+                5 => {
+                    a.u8(0x41).u8(0xc0 | 16).u8(0x41).u8(0xc0 | 3).u8(0x42).u8(0x07).uleb(3); // restores
+                }
+                _ => {
+                    cfa_program(rng, &mut a, 6, 8, false);
+                }
+            }
+            a.align(8);
+            a.end_len(tok, 0);
+        }
+    }
+    a.u32(0);
+    a.v
+}
